@@ -142,6 +142,9 @@ def _check(pid, P, tier, seed, bdir, ev):
     samples = []
     extraction = {}
     solver_ms = 0
+    probs, suites_seen = scan_suite_overrides()
+    cov['suite_overrides_scan'] = dict(problems=probs, defined={k: len(v) for k, v in suites_seen.items()})
+    undecided.extend(probs)
     for uname in P.get('units', ['frost_core']):
         cfg = load_unit_cfg(uname)
         cfg['crate_name'] = 'unit'
@@ -288,32 +291,49 @@ def _check(pid, P, tier, seed, bdir, ev):
         for (l, key, kind, name, n) in clauses:
             if key in serving and len(samples) < 40:
                 samples.append('%s :: %s[%s]' % (VR.short(key), kind, name))
-    # Kani part
+    # Kani part: harnesses over the REAL frost-core monomorphised at toy ciphersuites (kani/README.md).  `complete` harnesses (loop-free or
+    # width-bounded loops, full input domain of the toy instantiation) count as obligations; `bounded` ones are stand-ins for assumed
+    # contracts: reported, labelled bounded, never counted as proved.  A failing harness comes with Kani's concrete counterexample.
     kani = None
-    if P.get('kani'):
+    if P.get('kani') and not os.environ.get('VERIF_NO_KANI'):
         kani = run_kani(pid, P, tier, bdir)
-        cov['kani'] = kani['harnesses']
         cmds.append(kani['cmd'])
+        kcomplete, kbounded, kincomplete = [], [], []
         for h in kani['harnesses']:
+            brief = dict(name=h['name'], status=h['status'], expect=h.get('expect', 'pass'), kind=h.get('kind'), bound=h.get('bound'), checks_total=h.get('checks_total'),
+                         wall_s=h.get('wall_s'), max_rss_mb=h.get('max_rss_mb'), backs=(h.get('backs') or '')[:300])
             if h.get('expect', 'pass') == 'pass':
-                total_obl += h.get('checks_total', 0) or 1
                 if h['status'] == 'pass':
-                    total_dis += h.get('checks_total', 0) or 1
+                    if h.get('kind') == 'complete':
+                        kcomplete.append(brief)
+                        total_obl += h.get('checks_total', 0) or 1
+                        total_dis += h.get('checks_total', 0) or 1
+                    else:
+                        kbounded.append(brief)
                 elif h['status'] == 'fail':
                     f = VR.Failure()
-                    f.message = 'Kani harness %s FAILED: %s' % (h['name'], '; '.join(h.get('failed_checks', [])[:3]))
+                    fc = h.get('failed_checks') or []
+                    f.message = 'Kani harness %s FAILED: %s' % (h['name'], '; '.join((c.get('description') if isinstance(c, dict) else str(c)) for c in fc[:3]))
                     f.obligation = 'kani :: %s' % h['name']
-                    f.rendered = json.dumps(h, indent=1)
+                    f.rendered = json.dumps(h, indent=1)[:8000]
                     f.fn_key = None
                     f.kani = h
                     failures_all.append(f)
                 else:
-                    undecided.append('kani harness %s: %s' % (h['name'], h['status']))
+                    kincomplete.append(brief)
             else:
                 if h['status'] == 'pass':
                     undecided.append('kani negative control %s unexpectedly passed (vacuity guard)' % h['name'])
+                elif h['status'] != 'fail':
+                    kincomplete.append(brief)
+        for b2 in (kcomplete + kbounded)[:30]:
+            samples.append('kani :: %s [%s%s]' % (b2['name'], b2['kind'], (': ' + b2['bound']) if b2.get('bound') and b2['bound'] != '-' else ''))
+        cov['kani'] = dict(complete=kcomplete, bounded_standins=kbounded, not_finished=kincomplete, error=kani.get('error'),
+                           note='toy ciphersuites Toy251 / Toy65537 / Wide<N>; bounded stand-ins are NOT counted in obligations/discharged')
         if kani.get('error'):
-            undecided.append('kani layer: ' + kani['error'])
+            undecided.append('kani layer: ' + str(kani['error'])[:300])
+        if kincomplete and (not P.get('units') or P.get('kani_required')):
+            undecided.append('kani harnesses did not finish (timeout/error): %s' % ', '.join(b['name'] for b in kincomplete[:8]))
     # sampled validation of assumed contracts on the REAL ciphersuite crates (labelled as such, never counted as proved)
     if P.get('rt_always') or (tier == 'thorough' and not os.environ.get('VERIF_NO_RT')):
         import rtcheck
@@ -346,7 +366,7 @@ def _check(pid, P, tier, seed, bdir, ev):
     cov['functions'] = fn_report
     cov['functions_under_contract'] = len([f for f in fn_report if f['mode'] in ('verified', 'transparent')])
     cov['extraction'] = extraction
-    cov['solver'] = 'z3 (bundled with Verus 0.2026.09.13)' + ('; CBMC 6.11 + kissat via Kani 0.68' if kani else '')
+    cov['solver'] = ('z3 (bundled with Verus 0.2026.09.13)' if P.get('units') else '') + ('; CBMC 6.11 + kissat via Kani 0.68' if kani else '')
     cov['solver_time_ms'] = solver_ms
     cov['samples'] = samples or ['(no named obligations)']
     cov['trusted_base'] = sorted(set(trusted + P.get('trusted_base', []) + PR.GLOBAL_TRUSTED))
@@ -390,6 +410,49 @@ def _check(pid, P, tier, seed, bdir, ev):
         log('OK property=%s obligations=%d discharged=%d functions_under_contract=%d solver_ms=%d' %
             (pid, total_obl, total_dis, cov['functions_under_contract'], solver_ms))
     return rc
+
+
+SUITE_BASE = ['ID', 'Group', 'HashOutput', 'SignatureSerialization', 'H1', 'H2', 'H3', 'H4', 'H5', 'HDKG', 'HID']
+SUITES = {
+    'frost-ed25519': SUITE_BASE, 'frost-ed448': SUITE_BASE, 'frost-p256': SUITE_BASE, 'frost-ristretto255': SUITE_BASE, 'frost-secp256k1': SUITE_BASE,
+    'frost-secp256k1-tr': SUITE_BASE + ['single_sign', 'pre_sign', 'pre_aggregate', 'pre_verify', 'generate_nonce', 'challenge', 'compute_signature_share',
+                                        'verify_share', 'serialize_signature', 'deserialize_signature', 'post_dkg'],
+}
+
+
+def scan_suite_overrides():
+    """The generic theorems hold in the "default world" (lemmas/vworld.rs: a suite that does not override the optional hooks).  Read from
+    source which items each `impl Ciphersuite for ..` defines and fail closed (undecided, never a pass) on anything unexpected."""
+    from rustlex import strip_comments, find_matching
+    problems = []
+    seen = {}
+    for crate, want in SUITES.items():
+        path = os.path.join(REPO, crate, 'src', 'lib.rs')
+        try:
+            src = strip_comments(open(path).read())
+            m = re.search(r'impl\s+Ciphersuite\s+for\s+(\w+)\s*\{', src)
+            b = src.index('{', m.start())
+            body = src[b + 1:find_matching(src, b)]
+            names = []
+            depth = 0
+            for mm in re.finditer(r'[{}]|\bfn\s+(\w+)|\btype\s+(\w+)|\bconst\s+(\w+)', body):
+                t = mm.group(0)
+                if t == '{':
+                    depth += 1
+                elif t == '}':
+                    depth -= 1
+                elif depth == 0:
+                    names.append(mm.group(1) or mm.group(2) or mm.group(3))
+        except Exception as e:
+            problems.append('%s: cannot read its `impl Ciphersuite` block (%s)' % (crate, e))
+            continue
+        seen[crate] = names
+        if sorted(names) != sorted(want):
+            extra = sorted(set(names) - set(want))
+            missing = sorted(set(want) - set(names))
+            problems.append('%s: `impl Ciphersuite` defines %s%s -- the default-world assumption (or the Taproot unit) was written for another set of overrides'
+                            % (crate, ('additionally ' + ', '.join(extra)) if extra else '', (' and no longer ' + ', '.join(missing)) if missing else ''))
+    return problems, seen
 
 
 def concrete_fallback(pid, seed, ev, undecided):
@@ -473,7 +536,10 @@ def run_kani(pid, P, tier, bdir):
     try:
         p = subprocess.run(cmd, capture_output=True, text=True, timeout=P.get('kani_timeout', 7200), env=dict(os.environ, VERIF_REPO=REPO))
         if os.path.exists(out):
-            res['harnesses'] = json.load(open(out))
+            data = json.load(open(out))
+            res['harnesses'] = data.get('harnesses', []) if isinstance(data, dict) else data
+            if isinstance(data, dict) and data.get('error'):
+                res['error'] = data['error']
         else:
             res['error'] = 'run_kani.py produced no result (rc=%s): %s' % (p.returncode, (p.stderr or '')[-400:])
     except subprocess.TimeoutExpired:
